@@ -419,6 +419,9 @@ class Representation(RepresentationBaseType):
             else:
                 tol = tolerance
             dt = getattr(item, 'decode_time', decode_time)
+            if dt is None and idx == 0:
+                # the first segment starts at the presentation time offset
+                dt = presentation_time_offset
             expected_duration = None
             if info.segments:
                 expected_duration = info.segments[idx + 1].duration
@@ -542,6 +545,12 @@ class Representation(RepresentationBaseType):
                     delta = media_timescale
                 seg.elt.check_almost_equal(
                     expected_time, next_decode_time, delta=delta, msg=msg)
+                seg.expected_decode_time = next_decode_time
+            elif (
+                    seg.expected_decode_time is None and
+                    next_decode_time is not None):
+                # on-demand profile: a segment starts where the previous
+                # one ended
                 seg.expected_decode_time = next_decode_time
             if not seg.validated:
                 await seg.validate()
